@@ -188,11 +188,37 @@ func expand6(ip net.IP) string {
 	return strings.Join(parts, ":")
 }
 
+// recListener remembers the raw connection of its most recent Accept.
+type recListener struct {
+	net.Listener
+	mu   sync.Mutex
+	conn *simnet.Conn
+}
+
+func (r *recListener) Accept() (net.Conn, error) {
+	c, err := r.Listener.Accept()
+	if err == nil {
+		r.mu.Lock()
+		r.conn, _ = c.(*simnet.Conn)
+		r.mu.Unlock()
+	}
+	return c, err
+}
+
+func (r *recListener) last() *simnet.Conn {
+	r.mu.Lock()
+	defer r.mu.Unlock()
+	return r.conn
+}
+
 func genTLVs(t *tape.Tape) []byte {
 	var b []byte
 	n := t.Pick(4, 3, 2, 1)
 	for i := 0; i < n; i++ {
-		l := []int{0, 1, 4, 32, 300, 900}[t.Pick(2, 2, 3, 3, 2, 1)]
+		l := []int{0, 1, 4, 32, 300, 900, -1}[t.Pick(2, 2, 3, 3, 2, 1, 5)]
+		if l < 0 {
+			l = t.Intn(300) // every total header length up to ~1 KiB occurs (scratch-buffer boundaries of a parser)
+		}
 		if len(b)+3+l > 1400 {
 			break
 		}
@@ -271,7 +297,8 @@ func runC08(env *core.Env, ci any) {
 		panic(err)
 	}
 	timeout := time.Duration(c.TimeoutMs) * time.Millisecond
-	l := &proxyproto.Listener{Listener: inner, ReadHeaderTimeout: timeout}
+	rec := &recListener{Listener: inner}
+	l := &proxyproto.Listener{Listener: rec, ReadHeaderTimeout: timeout}
 	type accepted struct {
 		conn                  net.Conn
 		at                    time.Duration
@@ -291,46 +318,25 @@ func runC08(env *core.Env, ci any) {
 			if err != nil {
 				return
 			}
-			// which scripted client is this? by the socket's remote IP (read it from the raw conn's ledger, not via the wrapper)
+			// which scripted client is this? the raw socket the wrapper was built on (k-th Accept of the wrapped
+			// listener = k-th Accept of the inner one), identified by its remote IP
 			var idx = -1
-			for _, st := range n.Conns() {
-				_ = st
-			}
+			raw := rec.last()
 			a := &accepted{conn: conn, at: env.Sched.Elapsed()}
-			mu.Lock()
-			for i := range acc {
-				if acc[i] == nil {
-					// matched below once the socket addresses are known
+			if raw != nil {
+				h, _, _ := net.SplitHostPort(raw.State().Remote)
+				mu.Lock()
+				for i := range c.Conns {
+					if h == clientIP(i) && acc[i] == nil {
+						acc[i] = a
+						idx = i
+					}
 				}
-				_ = i
+				mu.Unlock()
 			}
-			mu.Unlock()
 			wg.Add(1)
 			go func() {
 				defer wg.Done()
-				// socket addresses straight from simnet: the last accepted endpoint of the listener
-				eps := n.Endpoints()
-				var raw *simnet.Conn
-				for _, ep := range eps {
-					st := ep.State()
-					if !st.Dialer && st.Local == ipTarget+":9000" {
-						h, _, _ := net.SplitHostPort(st.Remote)
-						for i := range c.Conns {
-							if h == clientIP(i) {
-								mu.Lock()
-								if acc[i] == nil {
-									acc[i] = a
-									idx = i
-									raw = ep
-								}
-								mu.Unlock()
-							}
-						}
-						if idx >= 0 {
-							break
-						}
-					}
-				}
 				if idx < 0 {
 					return
 				}
